@@ -1223,6 +1223,16 @@ PPL::Grid::add_constraints(const Constraint_System& cs) {
   if (space_dim < cs.space_dimension()) {
     throw_dimension_incompatible("add_constraints(cs)", "cs", cs);
   }
+  // Validate the whole system first: nothing is added if one of
+  // the constraints is rejected, and the kind of the constraints is
+  // validated even when the grid is known to be empty.
+  for (Constraint_System::const_iterator i = cs.begin(),
+         cs_end = cs.end(); i != cs_end; ++i) {
+    if (i->is_inequality() && !i->is_inconsistent()
+        && !i->is_tautological()) {
+      throw_invalid_constraints("add_constraints(cs)", "cs");
+    }
+  }
   if (marked_empty()) {
     return;
   }
